@@ -75,6 +75,8 @@ COMBINATORS = {
     "std::option::Option::<T>::unwrap_or_else": {"n": 2, "variants": _O, "ok": ("payload",), "err": ("apply", 1, False, None)},
     "std::option::Option::<T>::ok_or": {"n": 2, "variants": _O, "ok": ("wrap", _RES, "Ok", "payload"), "err": ("wrap", _RES, "Err", ("arg", 1))},
     "std::option::Option::<T>::ok_or_else": {"n": 2, "variants": _O, "ok": ("wrap", _RES, "Ok", "payload"), "err": ("apply", 1, False, (_RES, "Err"))},
+    # the lazily filled cache idiom `slot.get_or_insert_with(f)`: the payload when filled, else f()
+    "std::option::Option::<T>::get_or_insert_with": {"n": 2, "variants": _O, "ok": ("payload",), "err": ("apply", 1, False, None)},
     "std::option::Option::<T>::or": {"n": 2, "variants": _O, "ok": ("same",), "err": ("arg", 1)},
     "std::option::Option::<T>::or_else": {"n": 2, "variants": _O, "ok": ("same",), "err": ("apply", 1, False, None)},
     "std::result::Result::<T, E>::map": {"n": 2, "variants": _R, "ok": ("apply", 1, True, (_RES, "Ok")), "err": ("same",)},
